@@ -348,11 +348,22 @@ func loopExits(fn *ssa.Function) (headers int, exits []loopExit) {
 			continue
 		}
 		headers++
+		// natural loop of the back edges into h
 		in := map[*ssa.BasicBlock]bool{}
-		for _, b := range fn.Blocks {
-			if b != h && h.Dominates(b) && reachable(b, h) {
-				in[b] = true
+		var work []*ssa.BasicBlock
+		for _, p := range h.Preds {
+			if h.Dominates(p) && p != h {
+				work = append(work, p)
 			}
+		}
+		for len(work) > 0 {
+			b := work[len(work)-1]
+			work = work[:len(work)-1]
+			if in[b] || b == h {
+				continue
+			}
+			in[b] = true
+			work = append(work, b.Preds...)
 		}
 		for b := range in {
 			for _, s := range b.Succs {
